@@ -36,6 +36,16 @@ CLAIMED = {
          "time_conversion.py by differential runs on the real name universe; ratio search on the real graph",
          "Proof: Props/C13.lean; constants regenerated from time_conversion.py; float round-off of the real converters is "
          "only explored (≤ 2^-40 relative)."),
+ "C18": ("5/C18", "Lean 4 theorems on piecewise-polynomial schedules (bin selection, evaluation = polynomial of the unique "
+         "piece, continuity of generated intercepts, monotone / convex / marginal rate <= top rate / soli <= rate*tax + 1 cent "
+         "from decidable coefficient conditions, parser accepts only well-formed input) + kernel-decided conditions for every "
+         "schedule in force at every date its resolved value changes (regenerated from the YAML files) + parser and evaluator "
+         "tied to the code by exact differential runs + shape search on the real float evaluator",
+         "Proof: Props/C18.lean (all real arguments, any schedule satisfying the decidable conditions) and Props/C18Inst.lean "
+         "(decide +kernel on 44 regenerated schedule entries: all well-formed; all 18 income-tax tariffs zero below the "
+         "allowance, monotone, convex, marginal rate <= top rate; all 8 soli schedules monotone and <= rate*tax + 0.01); "
+         "the merged raw pieces come from the Lean loader model, which is compared with the real loader on every run; float "
+         "evaluation of the real evaluator is only explored."),
 }
 
 NOT_YET = "check not built yet in this round (design in DESIGN.md §5); the property itself is in scope of the technique"
